@@ -1,6 +1,7 @@
 """C04 -- every simulated path is a legal walk of the model's events.
 Also hosts the one-step harnesses reused by C05 (first-reaction map), C10 (conservation)
 and C11 (limits)."""
+import os
 import numpy as np
 import z3
 
@@ -298,7 +299,7 @@ def helper_contract_unit(nR, nS, shrink_iters=2):
     import re
 
     def load():
-        src = open("/repo/src/pygom/model/_tau_leap.pyx").read().replace("\r\n", "\n")
+        src = open(os.path.join(os.environ.get("PGV_REPO", "/repo"), "src/pygom/model/_tau_leap.pyx")).read().replace("\r\n", "\n")
         body = src[src.index("def _cy_test_tau_leap_safety"):]
         body = re.sub(r"def _cy_test_tau_leap_safety\((.|\n)*?\):\n", "def helper(x, reactant_mat, rates, tau_scale, epsilon):\n", body, count=1)
         out = []
